@@ -227,6 +227,13 @@ def dh(name, replayable=False, timeout=600, **kw):
     return d
 
 
+def lemmas(*patterns):
+    return {"kind": "verus", "gen": "lemmas", "obligations": list(patterns), "rlimit": 30}
+
+
+A_LEMMA = ("the spec functions of verus/lemmas.rs.tmpl (next_gen_spec, snapshot_step, upd_step/published, the hypotheses of lemma_c01_containment) restate the postconditions "
+           "discharged on the real code by the named Kani/Verus obligations; the restatement is by hand except next_gen, whose Kani oracle text is verified against the spec function")
+
 DGRP = {"kind": "kani", "crate": "clock-bound-d", "units": ["d_nolog", "d_updater"], "modpath": "shm_writer::verif_updater"}
 PGRP = {"kind": "kani", "crate": "clock-bound-d", "units": ["d_nolog", "d_poller"], "modpath": "chrony_poller::verif_poller"}
 POL = "harness/clock-bound-d/verif_poller.rs"
@@ -261,7 +268,8 @@ PROPS = {
         "functions": UPD_FUNCS,
         "assumptions": UPD_ASSUME,
         "trusted": ["harness/clock-bound-d/verif_updater.rs (expected_record oracle)"],
-        "groups": [dict(DGRP, harnesses=[dh("c08_new_initial_state"), dh("c08_fsm_table"), dh("c08_update_step"), dh("c08_missing_step"), dh("c08_dispatch", timeout=900)])],
+        "groups": [dict(DGRP, harnesses=[dh("c08_new_initial_state"), dh("c08_fsm_table"), dh("c08_update_step"), dh("c08_missing_step"), dh("c08_dispatch", timeout=900)]),
+                   lemmas(r"C08\.lemma\..*")],
     },
     "C09": {
         "functions": UPD_FUNCS,
@@ -269,7 +277,8 @@ PROPS = {
                                      "(two consecutive non-synchronised outcomes == the second alone, observably)"],
         "trusted": ["harness/clock-bound-d/verif_updater.rs (untrusted_record oracle)"],
         "groups": [dict(DGRP, harnesses=[dh("c08_new_initial_state"), dh("c09_fresh_then_nonsync"), dh("c09_nonsync_absorbing")]),
-                   dict(PGRP, harnesses=[{"name": "c13_starts_outside_grace", "file": POL, "replayable": False, "tier": "quick", "timeout": 600}])],
+                   dict(PGRP, harnesses=[{"name": "c13_starts_outside_grace", "file": POL, "replayable": False, "tier": "quick", "timeout": 600}]),
+                   lemmas(r"C08\.lemma\..*")],
     },
     "C19": {
         "functions": ["clock_bound_d (bin) main(): statement `let max_drift_ppb = match args.max_drift_rate {..};` (extracted verbatim, wrapped)",
@@ -301,6 +310,36 @@ PROPS = {
                                         "C10.extract.future_unknown", "C10.extract.fresh_is_sync"])
                         for e in range(-10, 31)]}],
     },
+    "C01": {
+        "functions": ["composition lemma lemma_c01_containment (Verus) over the contracts of: extract_bound_from_tracking, ShmUpdater::{process_clock_update, process_missing_clock_update, "
+                      "write_clock_error_bound}, run_clock_error_bound_poller, ClockErrorBound::{now, compute_bound_at}, main()'s ppm->ppb statement"],
+        "assumptions": [A["tools"], A["float"], A["extract"], A["weaver"], A_LEMMA,
+                        "chronyd's reported offset, root delay and root dispersion were valid when reported; the oscillator drifted no faster than the configured rate (hypotheses of the property itself)",
+                        "C02 ASSUMED: the record the client evaluates is one complete published record (snapshot atomicity under concurrent update is not shown by this family of technique)",
+                        "the monotonic clock measures at least the true time elapsed between the chrony report and the client's realtime read over [as_of read, client's monotonic read] "
+                        "(second-order term rho^2 * dt neglected)",
+                        "instants and errors are modelled as integer nanoseconds; the containment margin proved is 3 ns (1 ns ceil tolerance of the published bound, 1 ns floor of the drift term, 1 ns float slack)",
+                        "A3/A4 rounding model of the daemon-side f64 expression (see C07)"],
+        "trusted": ["verus/lemmas.rs.tmpl"],
+        "groups": [
+            lemmas(r"C01\.lemma\..*", r"C08\.lemma\..*"),
+            {"kind": "verus", "gen": "compute", "obligations": [r"C05\.compute\.(never_less|symmetric|exact|ok)", r"C06\.compute\.(sync_only_if|free_only_if|unknown_sticky|void_is_unknown|status_law)", r"NIX\..*"],
+             "rlimit": 30, "float_dependent": FLOAT_DEP, "float_shape_clause": "C05.compute.exact",
+             "float_dependent_if_shape_lost": ["C05.compute.ordered", "C14.compute.no_panic"], "pair": COMPUTE_SEARCH},
+            {"kind": "verus", "gen": "extract", "obligations": [r"C07\.extract\.(formula_shape|never_smaller_than_the_sum|never_negative)"], "rlimit": 30,
+             "float_dependent": ["C07.extract.formula_shape", "C07.extract.never_negative", "C07.extract.never_smaller_than_the_sum"],
+             "pair": {"kind": "search", "crate": "clock-bound-d", "units": ["d_extract_search"], "features": None, "test": "verif_search_extract"}},
+            {"kind": "kani", "crate": "clock-bound-d", "units": ["d_nolog", "d_updater"], "modpath": "shm_writer::verif_updater",
+             "harnesses": [{"name": n, "file": "harness/clock-bound-d/verif_updater.rs", "replayable": False, "tier": "quick", "timeout": 600}
+                           for n in ("c07_nonneg", "c08_update_step", "c08_missing_step", "c09_fresh_then_nonsync")]},
+            {"kind": "kani", "crate": "clock-bound-d", "units": ["d_main"], "modpath": "verif_main",
+             "harnesses": [{"name": "c19_main_ppb", "file": "harness/clock-bound-d/verif_main.rs.tmpl", "replayable": True, "timeout": 600}]},
+            {"kind": "kani", "crate": "clock-bound-shm", "units": ["shm_now"], "modpath": "verif_now",
+             "harnesses": [{"name": "c12_now_reads_realtime_then_monotonic", "file": "harness/clock-bound-shm/verif_now.rs", "replayable": False, "tier": "quick", "timeout": 600}]},
+            {"kind": "kani", "crate": "clock-bound-d", "units": ["d_nolog", "d_poller"], "modpath": "chrony_poller::verif_poller", "tier": "thorough",
+             "harnesses": [{"name": "c13_poller_iteration", "file": "harness/clock-bound-d/verif_poller.rs", "replayable": False, "tier": "quick", "timeout": 900}]},
+        ],
+    },
     "C05": {
         "functions": COMPUTE_FUNCS,
         "assumptions": [A["tools"], A["float"], A["extract"], A["weaver"]],
@@ -323,7 +362,7 @@ PROPS = {
         "functions": ["clock_bound_shm::writer::<ShmWriter as ShmWrite>::write"],
         "assumptions": [A["tools"], A["seq_atomics"], A["weaver"]],
         "trusted": ["tools/weave (vlib.Workspace.apply)", "harness/clock-bound-shm/verif_write.rs (oracle next_gen, Seg layout)"],
-        "groups": [dict(SHM_WRITE_GRP, harnesses=[C11_WRITE])],
+        "groups": [dict(SHM_WRITE_GRP, harnesses=[C11_WRITE]), lemmas(r"C11\.lemma\..*")],
     },
     "C03": {
         "functions": ["clock_bound_shm::reader::ShmReader::snapshot", "clock_bound_shm::writer::<ShmWriter as ShmWrite>::write"],
@@ -332,7 +371,8 @@ PROPS = {
                         "snapshot's retry loop is unwound twice with the unwinding assertion on (with a quiescent segment the first iteration returns)"],
         "trusted": ["harness/clock-bound-shm/verif_read.rs (Seg layout, reader_over)"],
         "groups": [dict(SHM_READ_GRP, harnesses=[sh("c03_snapshot_quiescent", RD)]),
-                   dict(SHM_WRITE_GRP, harnesses=[C11_WRITE, sh("c16_write_then_fresh_snapshot_roundtrip", WR)])],
+                   dict(SHM_WRITE_GRP, harnesses=[C11_WRITE, sh("c16_write_then_fresh_snapshot_roundtrip", WR)]),
+                   lemmas(r"C03\.lemma\..*", r"C11\.lemma\..*")],
     },
     "C04": {
         "functions": ["clock_bound_shm::reader::ShmReader::{snapshot, new}", "clock_bound_shm::writer::ShmWriter::new", "clock_bound_shm::writer::<ShmWriter as ShmWrite>::write",
